@@ -122,6 +122,67 @@ MULTI = {
     ],
 }
 
+# loop-invariant hoisting after the (correct) scoping: for a Loop with a constant trip count >= 1 and no
+# cond, body-only operator applications whose operands are all defined outside the body move out
+MULTI["H1-loop-invariant-hoisting"] = [
+    (B, """            self.scope_own[graph] = sorted(
+                graph_scope_set[graph], key=lambda nd: topo_index[nd]
+            )
+""", """            self.scope_own[graph] = sorted(
+                graph_scope_set[graph], key=lambda nd: topo_index[nd]
+            )
+        for graph in sorted(self.graphs, key=lambda g: -len(self.scope_own[g])):
+            owner = self.scope_tree.subgraph_owner.get(graph)
+            if owner is None or owner.op_type.identifier != "Loop":
+                continue
+            M = getattr(owner.inputs, "M", None)
+            if M is None or M._value is None or getattr(owner.inputs, "cond", None) is not None:
+                continue
+            try:
+                if int(np.asarray(M._value.value).reshape(-1)[0]) < 1:
+                    continue
+            except Exception:
+                continue
+            outer = self.scope_tree.scope_of[owner]
+            moved = True
+            while moved:
+                moved = False
+                for nd in list(self.scope_own[graph]):
+                    deps = [v._op for v in nd.dependencies]
+                    if not deps or isinstance(nd, Argument) or nd is self.source_of[graph]:
+                        continue
+                    if next(iter(nd.subgraphs), None) is not None:
+                        continue
+                    if all(self.scope_tree.scope_of[d] is not graph for d in deps):
+                        self.scope_own[graph].remove(nd)
+                        at = self.scope_own[outer].index(owner)
+                        self.scope_own[outer].insert(at, nd)
+                        self.scope_tree.scope_of[nd] = outer
+                        moved = True
+"""),
+]
+
+# the compiled body proto is cached on the owning node's AttrGraph, keyed by subgraph name + model
+# opset requirements; on a hit compile_graph is skipped (stale body on a second build)
+MULTI["H2-body-proto-cache"] = [
+    (B, """            subgraph_name = scope.node[subgraph_of] + f"_{key}"
+            subgraph = subgraph.with_name(subgraph_name).with_opset(""",
+     """            subgraph_name = scope.node[subgraph_of] + f"_{key}"
+            attr = getattr(subgraph_of.attrs, key)
+            ckey = (subgraph_name, tuple(sorted(self.model_opset_req)))
+            cached = getattr(attr, "_cached_onnx", None)
+            if cached is not None and cached[0] == ckey:
+                subgraph_opset_req |= cached[2]
+                return cached[1]
+            subgraph = subgraph.with_name(subgraph_name).with_opset("""),
+    (B, """            subgraph_functions.extend(subgraph._get_build_result().functions)
+            return subgraph.to_onnx()""",
+     """            subgraph_functions.extend(subgraph._get_build_result().functions)
+            proto = subgraph.to_onnx()
+            object.__setattr__(attr, "_cached_onnx", (ckey, proto, set(subgraph._get_build_result().opset_req)))
+            return proto"""),
+]
+
 
 def sh(cmd, **kw):
     return subprocess.run(cmd, shell=True, capture_output=True, text=True, cwd=V, **kw)
